@@ -106,6 +106,18 @@ fn run_case(case: &Value) -> Result<(String, bool), String> {
                             }
                         }
                     }
+                    "dudect" => {
+                        let d = unhex(op["rng"].as_str().unwrap());
+                        let m = unhex(op["msg"].as_str().unwrap_or(""));
+                        let mut rng = ScriptRng::oks(&[&d, &d]);
+                        match (a.dudect)(&mut rng, &m) {
+                            Err(pn) => {
+                                obs += &format!("dudect_keygen_sign_with_rng panicked: {};", pn.0);
+                                bad = true;
+                            }
+                            Ok(r) => obs += &format!("dudect_keygen_sign_with_rng returned {};", if r.is_ok() { "Ok" } else { "Err" }),
+                        }
+                    }
                     "sk_from_bytes" | "sk_from_bytes_expect" | "sk_roundtrip" | "sk_exercise" => {
                         let b = unhex(op["sk"].as_str().unwrap());
                         let r = (a.sk_from_bytes)(&b);
